@@ -40,7 +40,7 @@ const ST: Slot = ("§T", "T", Role::TypeParam);
 const SN: Slot = ("§N", "N", Role::ConstParam);
 const SL: Slot = ("§L", "l", Role::Lifetime);
 
-const PROGS: [Prog; 14] = [
+const PROGS: [Prog; 15] = [
     Prog {
         name: "all-traits-named-struct",
         slots: &[SX, SP, SQ, ST, SN],
@@ -79,9 +79,9 @@ const PROGS: [Prog; 14] = [
     },
     Prog {
         name: "operators-named-struct",
-        slots: &[SX, SP, SQ, ST],
-        def: "#[derive_ex(Add, SubAssign, Neg, Not, Shl, BitXorAssign)]\npub struct §X<§T> { pub §p: §T, pub §q: i8 }\n",
-        run: "let mk = |a: i8, b: i8| §X::<i8> { §p: a, §q: b };\nlet r = mk(1, 2) + mk(3, 4); let r2 = &mk(1, 2) + &mk(3, 4); let r3 = -mk(1, 2); let r4 = !&mk(1, 2); let r5 = mk(1, 2) << &mk(1, 1);\nlet mut s = mk(9, 9); s -= mk(1, 2); s -= &mk(1, 1); s ^= mk(1, 1);\nout.push_str(&::std::format!(\"{},{};{},{};{},{};{},{};{},{};{},{}\", r.§p, r.§q, r2.§p, r2.§q, r3.§p, r3.§q, r4.§p, r4.§q, r5.§p, r5.§q, s.§p, s.§q));",
+        slots: &[SX, SP, SQ, ST, SL],
+        def: "#[derive_ex(Add, SubAssign, Neg, Not, Shl, BitXorAssign)]\npub struct §X<'§L, §T> { pub §p: §T, pub §q: i8, pub tag: ::dxrt::probe::Tag<&'§L §T> }\n",
+        run: "let mk = |a: i8, b: i8| §X::<'static, i8> { §p: a, §q: b, tag: ::dxrt::probe::Tag(::core::marker::PhantomData) };\nlet r = mk(1, 2) + mk(3, 4); let r2 = &mk(1, 2) + &mk(3, 4); let r3 = -mk(1, 2); let r4 = !&mk(1, 2); let r5 = mk(1, 2) << &mk(1, 1);\nlet mut s = mk(9, 9); s -= mk(1, 2); s -= &mk(1, 1); s ^= mk(1, 1);\nout.push_str(&::std::format!(\"{},{};{},{};{},{};{},{};{},{};{},{}\", r.§p, r.§q, r2.§p, r2.§q, r3.§p, r3.§q, r4.§p, r4.§q, r5.§p, r5.§q, s.§p, s.§q));",
     },
     Prog {
         name: "operators-tuple-struct",
@@ -124,6 +124,12 @@ const PROGS: [Prog; 14] = [
         slots: &[SX, SA, SB, SP, SQ, ST],
         def: "#[derive_ex(Hash, Clone)]\npub enum §X<§T> { §A { #[hash(by = |v: &u8, s| ::core::hash::Hash::hash(&(*v as u16), s))] §p: u8, #[hash(key = $.1)] §q: (§T, i8) }, §B }\n",
         run: "let vals = [§X::<bool>::§A { §p: 1, §q: (true, 2) }, §X::§A { §p: 3, §q: (false, 2) }, §X::§B];\nfor a in &vals { let c = ::core::clone::Clone::clone(a); out.push_str(&::std::format!(\"{};{};\", ::dxrt::RecHasher::of(a), ::dxrt::RecHasher::of(&c))); }",
+    },
+    Prog {
+        name: "all-traits-enum-const",
+        slots: &[SX, SA, SB, SN],
+        def: "#[derive_ex(Clone, Debug, Default, Ord, PartialOrd, Eq, PartialEq, Hash)]\npub enum §X<const §N: usize> { #[default] §A, §B([u8; §N], u8) }\n",
+        run: "let vals = [§X::<2>::§A, §X::§B([1, 2], 0), §X::§B([1, 3], 0), §X::§B([1, 2], 5)];\nfor a in &vals { for b in &vals { out.push_str(&::std::format!(\"{}{:?}{:?},\", a == b, ::core::cmp::PartialOrd::partial_cmp(a, b), ::core::cmp::Ord::cmp(a, b))); } let c = ::core::clone::Clone::clone(a); out.push_str(&::std::format!(\"{};{};\", &c == a, <§X<2> as ::core::default::Default>::default() == vals[0])); }",
     },
 ];
 
@@ -203,7 +209,7 @@ fn gen(ch: &mut Ch, thorough: bool) -> Option<Case> {
         // quick: full dictionary on the three all-traits programs in plain + shadowed scope; the rest: generator names only, plain
         if prog > 2 {
             if let Some((_, n)) = renames.first() {
-                if scope != Scope::Plain || !(GEN_NAMES.contains(&n.as_str()) || n == "r#type") {
+                if scope != Scope::Plain || !(GEN_NAMES.contains(&n.as_str()) || n == "r#type" || LIFETIMES.contains(&n.as_str())) {
                     return None;
                 }
             }
